@@ -56,9 +56,15 @@ fn make_all_writable(p: &Path) {
     }
 }
 
-fn materialize(t: &Path, tree: &Value, relative_links: bool) {
+/// the model's layer "x" is materialised under the concrete name `lname`
+fn conc(rel: &str, lname: &str) -> String {
+    if rel == "L/x" || rel.starts_with("L/x/") || rel.starts_with("L/x.") { format!("L/{lname}{}", &rel[3..]) } else { rel.to_string() }
+}
+
+fn materialize(t: &Path, tree: &Value, relative_links: bool, lname: &str) {
     let mut modes: Vec<(PathBuf, u32)> = vec![];
     let mut mk = |rel: &str, node: &Value, modes: &mut Vec<(PathBuf, u32)>| {
+        let rel = &conc(rel, lname);
         let p = t.join(rel);
         match node["k"].as_str().unwrap() {
             "none" => {}
@@ -71,7 +77,7 @@ fn materialize(t: &Path, tree: &Value, relative_links: bool) {
                 modes.push((p, mode_of(node["mode"].as_str().unwrap())));
             }
             "link" => {
-                let tgt = node["tgt"].as_str().unwrap();
+                let tgt = &conc(node["tgt"].as_str().unwrap(), lname);
                 let target = if relative_links {
                     let ups = rel.matches('/').count();
                     PathBuf::from("../".repeat(ups)).join(tgt)
@@ -95,8 +101,8 @@ fn materialize(t: &Path, tree: &Value, relative_links: bool) {
         mk(rel, node, &mut modes);
     }
     // a content metadata file that exists must be readable as such
-    if t.join("L/x.toml").exists() {
-        fs::write(t.join("L/x.toml"), "[types]\ncache = true\n\n[metadata]\nkept = \"no\"\n").unwrap();
+    if t.join(format!("L/{lname}.toml")).exists() {
+        fs::write(t.join(format!("L/{lname}.toml")), "[types]\ncache = true\n\n[metadata]\nkept = \"no\"\n").unwrap();
     }
     // modes last, deepest first
     modes.sort_by_key(|(p, _)| std::cmp::Reverse(p.as_os_str().len()));
@@ -105,22 +111,24 @@ fn materialize(t: &Path, tree: &Value, relative_links: bool) {
     }
 }
 
-fn outside(t: &Path) -> fsnap::Snap {
-    fsnap::snapshot(t).into_iter().filter(|(k, _)| !(k == "L/x" || k.starts_with("L/x/") || k == "L/x.toml" || k.starts_with("L/x.sbom."))).collect()
+fn outside(t: &Path, lname: &str) -> fsnap::Snap {
+    let (d, pre, toml, sbom) = (format!("L/{lname}"), format!("L/{lname}/"), format!("L/{lname}.toml"), format!("L/{lname}.sbom."));
+    fsnap::snapshot(t).into_iter().filter(|(k, _)| !(*k == d || k.starts_with(&pre) || *k == toml || k.starts_with(&sbom))).collect()
 }
 
 fn run(v: &Value, scratch: &Path) -> Vec<String> {
     let mut problems = vec![];
     let root_kind = v["tree"]["L/x"]["k"].as_str().unwrap().to_string();
     let root_tgt = v["tree"]["L/x"]["tgt"].as_str().unwrap().to_string();
-    for (entry, relative) in [("uncached_layer", false), ("cached_layer+delete", true), ("handle_layer+recreate", false)] {
+    // the same tree under a plain layer name and under a dotted one whose prefix is the sibling layer
+    for (entry, relative, lname) in [("uncached_layer", false, "x"), ("cached_layer+delete", true, "x"), ("handle_layer+recreate", false, "x"), ("uncached_layer", true, "y.x"), ("handle_layer+recreate", false, "y.x")] {
         let tmp = tempfile::tempdir_in(scratch).unwrap();
         let t = tmp.path();
         fs::set_permissions(t, fs::Permissions::from_mode(0o755)).unwrap();
-        materialize(t, &v["tree"], relative);
-        let before = outside(t);
+        materialize(t, &v["tree"], relative, lname);
+        let before = outside(t, lname);
         let ctx = build_context(&t.join("L"));
-        let name: LayerName = "x".parse().unwrap();
+        let name: LayerName = lname.parse().unwrap();
         let result: Result<(), String> = match entry {
             "uncached_layer" => ctx.uncached_layer(&name, UncachedLayerDefinition { build: true, launch: true }).map(|_| ()).map_err(|e| format!("{e:?}")),
             "cached_layer+delete" => ctx
@@ -129,31 +137,31 @@ fn run(v: &Value, scratch: &Path) -> Vec<String> {
                 .map_err(|e| format!("{e:?}")),
             _ => ctx.handle_layer(name.clone(), Recreate).map(|_| ()).map_err(|e| format!("{e:?}")),
         };
-        let after = outside(t);
+        let after = outside(t, lname);
         let d = fsnap::diff(&before, &after);
         if !d.is_empty() {
-            problems.push(format!("{entry}: something outside the layer changed: {d:?}"));
+            problems.push(format!("{entry}[{lname}]: something outside the layer changed: {d:?}"));
         }
         let dangling_root = root_kind == "link" && root_tgt == "nowhere";
         match &result {
             Ok(()) => {
                 // the layer was recreated: a real, empty directory, nothing of the old entries left
-                let md = fs::symlink_metadata(t.join("L/x"));
+                let md = fs::symlink_metadata(t.join(format!("L/{lname}")));
                 let ok_dir = md.as_ref().is_ok_and(|m| m.is_dir());
-                let empty = fs::read_dir(t.join("L/x")).map(|mut d| d.next().is_none()).unwrap_or(false);
+                let empty = fs::read_dir(t.join(format!("L/{lname}"))).map(|mut d| d.next().is_none()).unwrap_or(false);
                 if !ok_dir || !empty {
-                    problems.push(format!("{entry}: after deletion the layer path is not a fresh empty directory (is_dir={ok_dir}, empty={empty})"));
+                    problems.push(format!("{entry}[{lname}]: after deletion the layer path is not a fresh empty directory (is_dir={ok_dir}, empty={empty})"));
                 }
-                if t.join("L/x.sbom.cdx.json").exists() {
-                    problems.push(format!("{entry}: the layer's SBOM file survived the deletion"));
+                if t.join(format!("L/{lname}.sbom.cdx.json")).exists() {
+                    problems.push(format!("{entry}[{lname}]: the layer's SBOM file survived the deletion"));
                 }
-                if fs::read_to_string(t.join("L/x.toml")).is_ok_and(|s| s.contains("kept")) {
-                    problems.push(format!("{entry}: the old content metadata survived the deletion"));
+                if fs::read_to_string(t.join(format!("L/{lname}.toml"))).is_ok_and(|s| s.contains("kept")) {
+                    problems.push(format!("{entry}[{lname}]: the old content metadata survived the deletion"));
                 }
             }
             Err(e) => {
                 if !dangling_root {
-                    problems.push(format!("{entry}: deletion failed: {}", e.chars().take(200).collect::<String>()));
+                    problems.push(format!("{entry}[{lname}]: deletion failed: {}", e.chars().take(200).collect::<String>()));
                 }
             }
         }
@@ -171,7 +179,7 @@ fn main() {
     let raw: Vec<Value> = if single { vec![serde_json::from_str(&fs::read_to_string(&input).unwrap()).unwrap()] } else { read_tlc_tagged(&input, "FT") };
     let results = par_map(&raw, threads(), |_, v| std::panic::catch_unwind(std::panic::AssertUnwindSafe(|| run(v, &scratch))).unwrap_or_else(|p| vec![format!("PANIC: {:?}", p.downcast_ref::<String>())]));
     let mut s = Summary::default();
-    s.evaluations = raw.len() * 3;
+    s.evaluations = raw.len() * 5;
     let mut kinds: BTreeMap<String, usize> = BTreeMap::new();
     for (v, probs) in raw.iter().zip(results) {
         let root = &v["tree"]["L/x"];
